@@ -45,6 +45,8 @@ def ufunc_poly(name: str, p: Poly) -> Poly:
 
 
 def apply_ufunc(interp, name: str, v: V) -> V:
+    if _is_pw(v):
+        return Term("piecewise", [TupleV([p.items[0], p.items[1], apply_ufunc(interp, name, p.items[2])]) for p in v.args], v.kw)
     if isinstance(v, Num):
         return Num(ufunc_poly(name, v.p)) if name not in ("isnan", "isfinite") else CondV("opaque", name, v)
     if isinstance(v, Grid):
@@ -210,7 +212,67 @@ def cat(interp, segs: List[Grid]):
         # element at global index idx  (idx in [total, total+sext)) = s.elem[sidx := idx - total]
         pieces.append(TupleV([Num(total), Num(sext), subst(s.elem, {sidx: Poly.atom(idx) - total})]))
         total = total + sext
-    return Grid([[(idx, total)]], Term("piecewise", pieces))
+    return Grid([[(idx, total)]], Term("piecewise", pieces, {"idx": Num(Poly.atom(idx))}))
+
+
+def segments(interp, g: Grid):
+    """1-D grid -> list of (start Poly, length Poly, value-fn(local index Poly) -> V); piecewise elements are split,
+    shifted selectors (idx = axis + c) are re-based and clipped where that is decidable; None if not decidable"""
+    if g.ndim != 1 or len(g.dims[0]) != 1:
+        return None
+    ax, ext = g.dims[0][0]
+    el = g.elem
+    if not _is_pw(el):
+        return [(Poly.const(0), ext, (lambda j, el=el, ax=ax: subst(el, {ax: j})))]
+    sel = el.kw["idx"].p
+    c = sel - Poly.atom(ax)
+    if not c.is_const():
+        return None
+    out = []
+    pos = Poly.const(0)
+    for p in el.args:
+        st, ln, val = p.items[0].p, p.items[1].p, p.items[2]
+        # piece applies for axis index in [st - c, st - c + ln)
+        lo = st - c
+        hi = lo + ln
+        # clip below 0
+        if lo.is_const() and lo.as_const() < 0:
+            if hi.is_const() and hi.as_const() <= 0:
+                continue
+            if not hi.is_const():
+                d = interp.decide(CondV("cmp", "<=", hi, Poly.const(0)))
+                if d is True:
+                    continue
+                if d is None and False:
+                    return None
+            lo = Poly.const(0)
+        # clip above ext
+        over = hi - ext
+        if over.is_const() and over.as_const() > 0:
+            hi = ext
+        ln2 = hi - lo
+        if ln2.is_const() and ln2.as_const() <= 0:
+            continue
+        if _is_pw(val):
+            sub = segments(interp, Grid([[(ax, ext)]], val))
+            if sub is None:
+                return None
+            # restrict nested pieces to [lo, hi): only support full containment decided by constants
+            for s2, l2, f2 in sub:
+                a = s2
+                b = s2 + l2
+                na = a if not ((a - lo).is_const() and (a - lo).as_const() < 0) else lo
+                nb = b if not ((b - hi).is_const() and (b - hi).as_const() > 0) else hi
+                l3 = nb - na
+                if l3.is_const() and l3.as_const() <= 0:
+                    continue
+                if not ((na - lo).is_const() or (na - a).is_zero()):
+                    return None
+                shift = na - a
+                out.append((na, l3, (lambda j, f2=f2, shift=shift: f2(j + shift))))
+            continue
+        out.append((lo, ln2, (lambda j, val=val, ax=ax, lo=lo: subst(val, {ax: j + lo}))))
+    return out
 
 
 def ceildiv(interp, a: Poly, b: Poly) -> Poly:
@@ -304,6 +366,9 @@ def binop(interp, op, l: V, r: V, node=None) -> Optional[V]:
                 return f(Num(int(a.v)), b)
             if isinstance(b, Const) and isinstance(b.v, bool):
                 return f(a, Num(int(b.v)))
+            pw = _piecewise_binop(f, a, b)
+            if pw is not None:
+                return pw
             if isinstance(a, CondV) or isinstance(b, CondV):
                 return Term(name.lower(), [a, b])
             return Term(name.lower(), [a, b])
@@ -312,6 +377,22 @@ def binop(interp, op, l: V, r: V, node=None) -> Optional[V]:
         return Term(name.lower(), [l, r])
     if isinstance(l, (CondV,)) or isinstance(r, (CondV,)):
         return Term(name.lower(), [l, r])
+    return None
+
+
+def _is_pw(x):
+    return isinstance(x, Term) and x.op == "piecewise"
+
+
+def _piecewise_binop(f, a, b):
+    """distribute elementwise arithmetic over piecewise sequences (same breakpoints, or piecewise with a plain value)"""
+    if _is_pw(a) and isinstance(b, Num):
+        return Term("piecewise", [TupleV([p.items[0], p.items[1], f(p.items[2], b)]) for p in a.args], a.kw)
+    if _is_pw(b) and isinstance(a, Num):
+        return Term("piecewise", [TupleV([p.items[0], p.items[1], f(a, p.items[2])]) for p in b.args], b.kw)
+    if _is_pw(a) and _is_pw(b) and len(a.args) == len(b.args) and vkey(a.kw["idx"]) == vkey(b.kw["idx"]) and \
+            all(vkey(x.items[0]) == vkey(y.items[0]) and vkey(x.items[1]) == vkey(y.items[1]) for x, y in zip(a.args, b.args)):
+        return Term("piecewise", [TupleV([x.items[0], x.items[1], f(x.items[2], y.items[2])]) for x, y in zip(a.args, b.args)], a.kw)
     return None
 
 
@@ -651,7 +732,7 @@ def list_subscript(interp, l: ListV, idx: V, node) -> V:
                         pos -= 1
                     else:
                         if isinstance(it, Loop) and len(it.items) == 1 and isinstance(it.items[0], Elem):
-                            return subst(it.items[0].value, {it.idx: it.extent + (k - pos) })
+                            return subst(it.items[0].value, {it.idx: it.extent - 1 + (k - pos)})
                         break
             return Term("listitem", [l, idx])
         g = to_grid(interp, l)
